@@ -301,7 +301,7 @@ def gen_frag_file(rng, tree, base):
     for _ in range(pick_weighted(rng, [(3, 1), (4, 2), (3, 3), (2, 4), (1, 6)])):
         r = rng.random()
         if r < 0.05:
-            lines.append(b"#c")
+            lines.append(rng.choice([b"#c", b"# a comment", b"#\ttab * !x /", b"# trailing  "]))
         elif r < 0.08:
             lines.append(b"")
         else:
